@@ -115,9 +115,26 @@ def kwargs_model(ctx, fv) -> T.Dict[str, T.Callable[[], rl.R]]:
                 out |= {concat(e, t) for t in nonfinal}
         return sorted(out)
 
-    for k in ("release", "pep440_tag", "release_tag"):
+    # the tag-dependent entries: constant propagation through the statements that compute them, once per release tag
+    tag_keys = ("release", "pep440_tag", "release_tag")
+    for k in tag_keys:
         ctx.require(k in assigns, f"format_version (v1) no longer assigns kwargs['{k}']")
-        model[k] = ("strs", strs_of(assigns[k]))
+    def _touches(st: ast.stmt) -> bool:
+        return any(isinstance(x, ast.Subscript) and unparse(x.value) == kwvar and const_str(x.slice) in tag_keys and isinstance(x.ctx, ast.Store) for x in ast.walk(st))
+    block = [st for st in fv.node.body if _touches(st)]
+    by_prop: T.Dict[str, T.Set[str]] = {k: set() for k in tag_keys}
+    try:
+        for tag in LEGACY_TAGS:
+            env_: T.Dict[str, T.Any] = {tagvar: tag, kwvar: {}}
+            ctx.prog._propagate(fv.module, block, env_, fv.fq)
+            for k in tag_keys:
+                ctx.require(k in env_[kwvar] and isinstance(env_[kwvar][k], str), f"format_version (v1): kwargs['{k}'] is not a string for tag {tag}")
+                by_prop[k].add(env_[kwvar][k])
+        for k in tag_keys:
+            model[k] = ("strs", sorted(by_prop[k]))
+    except AnalysisError:
+        for k in tag_keys:
+            model[k] = ("strs", strs_of(assigns[k]))
     ctx.require("yy" in assigns and len(assigns["yy"]) == 1, "kwargs['yy'] is not assigned exactly once")
     yy = unparse(shapes.inline(fv, assigns["yy"][0], ctx.prog)).replace(f"{fv.params[0]}.year", "year")
     if yy in ("str(year)[-2:]", "str(year % 100).zfill(2)", "'%02d' % (year % 100)", "'{:02}'.format(year % 100)", "f'{year % 100:02}'", "f'{year % 100:02d}'"):
